@@ -218,13 +218,36 @@ func c18Exec(x *Ctx) {
 			// create with an evil name (in a directory fid)
 			en := evilName(r, real, u.Outer)
 			if cr := call(&Msg{Type: Twalk, Fid: target, Newfid: 3, Wname: nil}); cr != nil && cr.M != nil && cr.M.Type == Rwalk {
-				perm := uint32(0o644)
-				if r.Pct(30) {
+				perm, ext := uint32(0o644), ""
+				switch k := r.Intn(12); {
+				case k < 3:
 					perm = 0x80000000 | 0o755
+				case k == 3 && dotu: // symbolic link
+					perm, ext = 0x02000000|0o777, []string{"file", "sub", "nowhere"}[r.Intn(3)]
+					x.Probe("create-special-kind")
+				case k == 4 && dotu: // hard link to the object of fid 0
+					perm, ext = 0x01000000|0o644, "0"
+					x.Probe("create-special-kind")
+				case k == 5 && dotu: // named pipe, device, socket
+					perm, ext = uint32(r.Pick(0x00200000, 0x00800000, 0x00100000))|0o644, []string{"", "c 1 3"}[r.Intn(2)]
+					x.Probe("create-special-kind")
 				}
-				if rr := call(&Msg{Type: Tcreate, Fid: 3, Name: en, Perm: perm, Mode: uint8(r.Pick(0, 1))}); rr != nil && rr.M != nil && rr.M.Type == Rcreate {
-					checkQid(rr.M.Qid, fmt.Sprintf("%s + Tcreate(%q)", what, en))
+				if rr := call(&Msg{Type: Tcreate, Fid: 3, Name: en, Perm: perm, Mode: uint8(r.Pick(0, 1)), Ext: ext}); rr != nil && rr.M != nil && rr.M.Type == Rcreate {
+					what := fmt.Sprintf("%s + Tcreate(%q, perm %#x)", what, en, perm)
+					checkQid(rr.M.Qid, what)
 					call(&Msg{Type: Twrite, Fid: 3, Offset: 0, Count: 4, Data: []byte("evil")})
+					// the fid now designates whatever was created: look at it, and around it
+					if sr := call(&Msg{Type: Tstat, Fid: 3}); sr != nil && sr.M != nil && sr.M.Type == Rstat {
+						checkQid(sr.M.Stat.Qid, what+" + Tstat")
+					}
+					if wr := call(&Msg{Type: Twalk, Fid: 3, Newfid: 5, Wname: []string{"canary.txt"}}); wr != nil && wr.M != nil && wr.M.Type == Rwalk {
+						for _, q := range wr.M.Wqid {
+							checkQid(q, what+" + Twalk(canary.txt)")
+						}
+						if len(wr.M.Wqid) == 1 {
+							call(&Msg{Type: Tclunk, Fid: 5})
+						}
+					}
 				}
 				call(&Msg{Type: Tclunk, Fid: 3})
 			}
